@@ -94,7 +94,7 @@ class Gen:
 
     def stmt(self, depth: int, ind: str) -> list[str]:
         r = self.rng
-        kinds = ['bump', 'fma', 'plain', 'call', 'round', 'round', 'round']
+        kinds = ['bump', 'fma', 'plain', 'call', 'round', 'round', 'round', 'idxcall']
         if depth < self.max_depth:
             kinds += ['for', 'for', 'while', 'if', 'ctx', 'for']
         kind = r.choice(kinds)
@@ -108,6 +108,11 @@ class Gen:
         if kind == 'call':
             form = r.choice(['h1(x) + h2(y)', 'h1(h2(x))', 'h3(x)', 'h1(x)', '(h1(x) if x > 0 else h2(y))', 'h2(x) * y + h1(y)'])
             return [f'{ind}mk_{k}_ = {form}']
+        if kind == 'idxcall':
+            # an indexed assignment with sites in the subscript and in the value
+            m = 1000 + k
+            form = r.choice([f'xs[h2(1)] = h1(x) + {m}', f'xs[h2(h2(2))] = h2(y) * {m} + h1(x)', f'xs[0] = h1(h2(x)) + {m}', f'xs[h2(1)] = x * y + {m}'])
+            return [f'{ind}{form}']
         if kind == 'round':
             ctx = r.choice(ROUND_CTXS)
             if r.random() < 0.12:
